@@ -1319,7 +1319,25 @@ class Context:
         """
         self._globals[name] = self._to_js(value)
 
-    def _to_python(self, value: JSValue) -> Any:
+    # Nesting accepted when values cross the Python/JavaScript boundary; each
+    # level uses host stack frames
+    _MAX_CONVERSION_DEPTH = 200
+
+    def _enter_container(self, path: list, container: Any) -> None:
+        """Record that the conversion descends into container.
+
+        path holds the containers between the root and the current value, so a
+        container found on its own path is a cycle (shared but acyclic
+        sub-structures are fine).
+        """
+        for ancestor in path:
+            if ancestor is container:
+                raise JSTypeError("Cannot convert a circular structure")
+        if len(path) >= self._MAX_CONVERSION_DEPTH:
+            raise JSRangeError("Cannot convert a structure nested this deeply")
+        path.append(container)
+
+    def _to_python(self, value: JSValue, _path: Optional[list] = None) -> Any:
         """Convert a JavaScript value to Python."""
         if value is UNDEFINED:
             return None
@@ -1332,12 +1350,24 @@ class Context:
         if isinstance(value, str):
             return value
         if isinstance(value, JSArray):
-            return [self._to_python(elem) for elem in value._elements]
+            path = [] if _path is None else _path
+            self._enter_container(path, value)
+            try:
+                return [self._to_python(elem, path) for elem in value._elements]
+            finally:
+                path.pop()
         if isinstance(value, JSObject):
-            return {k: self._to_python(v) for k, v in value._properties.items()}
+            path = [] if _path is None else _path
+            self._enter_container(path, value)
+            try:
+                return {
+                    k: self._to_python(v, path) for k, v in value._properties.items()
+                }
+            finally:
+                path.pop()
         return value
 
-    def _to_js(self, value: Any) -> JSValue:
+    def _to_js(self, value: Any, _path: Optional[list] = None) -> JSValue:
         """Convert a Python value to JavaScript."""
         if value is None:
             return NULL
@@ -1353,15 +1383,25 @@ class Context:
         if value is UNDEFINED:
             return value
         if isinstance(value, list):
-            arr = JSArray()
-            for elem in value:
-                arr.push(self._to_js(elem))
-            return arr
+            path = [] if _path is None else _path
+            self._enter_container(path, value)
+            try:
+                arr = JSArray()
+                for elem in value:
+                    arr.push(self._to_js(elem, path))
+                return arr
+            finally:
+                path.pop()
         if isinstance(value, dict):
-            obj = JSObject()
-            for k, v in value.items():
-                obj.set(str(k), self._to_js(v))
-            return obj
+            path = [] if _path is None else _path
+            self._enter_container(path, value)
+            try:
+                obj = JSObject()
+                for k, v in value.items():
+                    obj.set(str(k), self._to_js(v, path))
+                return obj
+            finally:
+                path.pop()
         # Python callables become JS functions
         if callable(value):
             return value
